@@ -8,12 +8,15 @@ use crate::gen::{self, GenCfg};
 use crate::props::common::*;
 use crate::spec::*;
 
-fn cfg(d: &mut Dna) -> GenCfg {
+fn cfg(d: &mut Dna, explicit_bounds: bool) -> GenCfg {
     let mut c = GenCfg::full();
     c.kinds = vec![Kind::Struct, Kind::Enum];
     c.trait_pct = 30;
     c.attr_pct = 50;
-    c.bounds = false;
+    c.bounds = explicit_bounds;
+    if explicit_bounds {
+        c.attr_pct = 70;
+    }
     c.type_expr = false;
     c.reprs = false;
     c.discriminants = false;
@@ -178,8 +181,40 @@ fn delegated<'a>(s: &'a TypeSpec, x: Tr, target: Option<&str>) -> Vec<&'a FieldS
     out
 }
 
+/// the attribute whose `bound` parameter governs the where-clause of x's impl (companions share the primary's)
+fn governing<'a>(s: &'a TypeSpec, x: Tr, target: Option<&str>) -> Option<&'a TAttr> {
+    match x {
+        Tr::Eq if s.has(Tr::PartialEq) => s.attr(Tr::PartialEq),
+        Tr::Copy if s.has(Tr::Clone) => s.attr(Tr::Clone),
+        Tr::PartialOrd if s.has(Tr::Ord) => s.attr(Tr::Ord),
+        Tr::Into => s.traits.iter().find(|a| a.tr == Tr::Into && a.into_ty.as_deref() == target),
+        t => s.attr(t),
+    }
+}
+
+fn trait_of_path(p: &str) -> Option<Tr> {
+    let last = p.trim().rsplit("::").next().unwrap_or("").split('<').next().unwrap_or("").trim();
+    ALL_TRAITS.iter().copied().find(|t| t.name() == last)
+}
+
 fn expected(s: &TypeSpec, x: Tr, target: Option<&str>, params: &[String], sigma: &[(String, &'static str)]) -> bool {
     let req = required(s, x);
+    // explicit bound modes replace the automatic predicates (C12's semantic half)
+    match governing(s, x, target).and_then(|a| a.bound()) {
+        Some(BoundV::False) => return true,
+        Some(BoundV::All) => return sigma.iter().all(|(_, m)| marker_has(m, req)),
+        Some(BoundV::Custom(preds)) => {
+            return preds.iter().all(|p| {
+                let Some((lhs, rhs)) = p.split_once(':') else { return true };
+                let Some((_, m)) = sigma.iter().find(|(n, _)| n == lhs.trim()) else { return true };
+                match trait_of_path(rhs) {
+                    Some(t) => marker_has(m, t),
+                    None => true,
+                }
+            });
+        },
+        _ => {},
+    }
     let fields_ok = delegated(s, x, target).iter().all(|f| implements(req, &f.ty, params, sigma));
     // supertraits on the type itself: educed ones are conditional, hand-written ones are unconditional
     let supers: &[Tr] = match x {
@@ -218,8 +253,12 @@ pub struct Case {
 }
 
 pub fn prepare(dna: &[u16]) -> Option<Case> {
+    prepare_with(dna, false)
+}
+
+pub fn prepare_with(dna: &[u16], explicit_bounds: bool) -> Option<Case> {
     let mut d = Dna::new(dna);
-    let c = cfg(&mut d);
+    let c = cfg(&mut d, explicit_bounds);
     let built = gen::build(&mut d, &c);
     let s = built.spec;
     if s.gens.types.is_empty() || s.variants.is_empty() {
@@ -325,7 +364,20 @@ pub fn prepare(dna: &[u16]) -> Option<Case> {
     if unconstrained {
         classes.push("parameter_only_in_undelegated_positions".into());
     }
-    Some(Case { spec: s, unit: Unit { body, has_run: true }, nontrivial: unconstrained && expected_false > 0, probes, expected_false, classes })
+    let explicit = s.traits.iter().any(|a| matches!(a.bound(), Some(BoundV::All) | Some(BoundV::Custom(_)) | Some(BoundV::False)));
+    if explicit_bounds && !explicit {
+        return None;
+    }
+    for a in &s.traits {
+        match a.bound() {
+            Some(BoundV::All) => classes.push("mode_all".into()),
+            Some(BoundV::Custom(_)) => classes.push("mode_custom".into()),
+            Some(BoundV::False) => classes.push("mode_false".into()),
+            _ => {},
+        }
+    }
+    let nt = if explicit_bounds { explicit && expected_false > 0 } else { unconstrained && expected_false > 0 };
+    Some(Case { spec: s, unit: Unit { body, has_run: true }, nontrivial: nt, probes, expected_false, classes })
 }
 
 fn subst_param(ty: &str, p: &str, with: &str) -> String {
@@ -353,37 +405,18 @@ fn subst_param(ty: &str, p: &str, with: &str) -> String {
     out
 }
 
-pub fn run(ctx: &Ctx) -> i32 {
-    if ctx.replay.is_some() {
-        return check::replay_unit(ctx);
-    }
-    let mut rep = Report::new(
-        ctx,
-        "generic types (1..3 type parameters, optional lifetimes/const parameters) whose fields apply P, Vec<P>, Option<P>, Box<P>, [P;2], (P,u8), &'a P, \
-         PhantomData<P>, Wrapper<P> or concrete types, with ignore/method/expression deciding delegation, every trait and the companions; every instantiation \
-         of the parameters with Yes / NoX marker types is probed with a compile-time trait-resolution test and compared with the model (all delegated \
-         fields implement the required trait, per std's documented impls, and the educed supertraits apply); the std-impl table probes itself in the same \
-         program; non-trivial = some parameter occurs only in non-delegated positions for an educed trait and at least one probe is expected false",
-    );
-    rep.assumptions.push("the std-impl table covers ten type constructors and is self-checked by probes at run time".into());
-    let so = match engine::build_proc_macro() {
-        Ok(s) => s,
-        Err(e) => {
-            rep.inconclusive.push(e.0);
-            return rep.finish();
-        },
-    };
-    let n = ctx.scale(1500, 12000);
-    let trees = check::draw(ctx.seed, 0xC11, n, 520);
+/// evaluate `n` generated cases and fold the outcome into `rep` (shared by C11 and by C12's semantic lane)
+pub fn lane(ctx: &Ctx, rep: &mut Report, so: &std::path::Path, n: usize, salt: u64, explicit_bounds: bool, tag: &str) {
+    let trees = check::draw(ctx.seed, salt, n, 520);
     let mut cases: Vec<(usize, Case)> = Vec::new();
     for (i, t) in trees.iter().enumerate() {
-        match prepare(&t.current()) {
+        match prepare_with(&t.current(), explicit_bounds) {
             Some(c) => cases.push((i, c)),
-            None => rep.count("skipped(no type parameter / known C01 finding)", 1),
+            None => rep.count("probe_lane_skipped(no type parameter / no explicit mode / known C01 finding)", 1),
         }
     }
     let units: Vec<Unit> = cases.iter().map(|(_, c)| c.unit.clone()).collect();
-    let (outs, stray) = check::eval_units("C11", &units, &so, 25, true);
+    let (outs, stray) = check::eval_units(tag, &units, so, 25, true);
     for s in stray.iter().take(3) {
         rep.inconclusive.push(format!("diagnostic outside any generated type: {s}"));
     }
@@ -409,6 +442,30 @@ pub fn run(ctx: &Ctx) -> i32 {
             rep.violations.push(Failure { msg: m, dna: trees[*ti].current(), variant: "probe".into(), source: c.spec.render_def(), unit_body: Some(c.unit.body.clone()) });
         }
     }
-    check::clean_work("C11");
+    check::clean_work(tag);
+}
+
+pub fn run(ctx: &Ctx) -> i32 {
+    if ctx.replay.is_some() {
+        return check::replay_unit(ctx);
+    }
+    let mut rep = Report::new(
+        ctx,
+        "generic types (1..3 type parameters, optional lifetimes/const parameters) whose fields apply P, Vec<P>, Option<P>, Box<P>, [P;2], (P,u8), &'a P, \
+         PhantomData<P>, Wrapper<P> or concrete types, with ignore/method/expression deciding delegation, every trait and the companions; every instantiation \
+         of the parameters with Yes / NoX marker types is probed with a compile-time trait-resolution test and compared with the model (all delegated \
+         fields implement the required trait, per std's documented impls, and the educed supertraits apply); the std-impl table probes itself in the same \
+         program; non-trivial = some parameter occurs only in non-delegated positions for an educed trait and at least one probe is expected false",
+    );
+    rep.assumptions.push("the std-impl table covers ten type constructors and is self-checked by probes at run time".into());
+    let so = match engine::build_proc_macro() {
+        Ok(s) => s,
+        Err(e) => {
+            rep.inconclusive.push(e.0);
+            return rep.finish();
+        },
+    };
+    let n = ctx.scale(1500, 12000);
+    lane(ctx, &mut rep, &so, n, 0xC11, false, "C11");
     rep.finish()
 }
